@@ -8,7 +8,9 @@ CHECKS = {
                 "255.255.255.255, 1-4 ranges with gaps>=2, routableSubnet/nodeSubnets with duplicates and host bits), renders "
                 "them to configuration JSON text and (1 case in 3) mutates one pool into an invalid one (outside subnet, "
                 "unsorted, overlapping, adjacent, reversed, bad literal, missing field, wrong JSON type); plus one range string "
-                "a~b per case. Non-trivial = >=2 ranges, or a boundary address (x.x.x.0/255, 0.0.0.0, 255.255.255.255), or a "
+                "a~b per case. A quarter of the valid cases also goes through galaxy-ipam's configmap path on a simulated cluster: the text "
+                "with a null entry in front (decodes, but ConfigurePool refuses it) must answer an error on EVERY poll and leave the configured "
+                "IPs as they were, then the accepted text is applied and enumerates the model's IPs. Non-trivial = >=2 ranges, or a boundary address (x.x.x.0/255, 0.0.0.0, 255.255.255.255), or a "
                 "mutated-invalid configuration; distinct by SHA-1 of the case.",
         "assumptions": ["IPv4 only; pod subnets other than 0.0.0.0/0", "gateway lies inside the pool's subnet (as in every documented configuration)",
                         "pools of one configuration do not overlap (documented requirement) when enumerated through IPAM"],
@@ -76,7 +78,8 @@ CHECKS.update({
 CHECKS["C05"] = {"pkg": "ipamsim", "test": "TestC05", "level": "fault_enumeration",
     "quick": {"checks": 800, "shards": 4, "timeout": 900},
     "thorough": {"checks": 2400, "shards": 16, "timeout": 3000, "test": "TestC05All"},
-    "rule": GEN + "Sequential histories (with reloads, API release, pool API, reservations). A fault-free run records galaxy-ipam's "
+    "rule": GEN + "Sequential histories (with reloads, API release, pool API, reservations and 0-2 reservation stories as in C09: an "
+            "administrator's labelled object whose add/delete events arrive early, late or never). A fault-free run records galaxy-ipam's "
             "API-call trace; then the history is re-executed once per selected (op, call index) x {error, crash-before, crash-after} "
             "(quick: 4-10 generated indices per history; thorough: every index). Oracle: memory == store for every configured IP after "
             "every completed op, a restarted plugin reconstructs the same tables, and after a crash + restart + one resync + one pod-IP "
@@ -96,7 +99,9 @@ CHECKS["C07"] = hist("TestC07", "rapid draws topologies, 1-3 deployments sharing
 CHECKS["C09"] = hist("TestC09", GEN + "Sequences of 2-4 configurations (ranges shrink/grow/move, pools disappear, node subnets change), "
     "administrator reservations (labelled FloatingIP) whose watch event is delivered early/late/never, 0-2 reservation stories per history "
     "(reserve; add event before / after / never relative to the next scheduling, or across a reload; then the reservation is withdrawn "
-    "with its delete event before / after the next scheduling, or across a reload), and episodes running one reload "
+    "with its delete event before / after the next scheduling, or across a reload), one failing API-server call in a quarter of the "
+    "histories (a reload that failed is polled again, as the configmap loop does; objects of de-configured IPs whose deletion failed "
+    "are leftovers by design until the next effective reload), and episodes running one reload "
     "concurrently with schedule/bind/unbind/API release/pod-IP sync/reservation events. Oracle: no allocation or binding of a reserved or "
     "unconfigured IP at any step; after every reload (and every episode containing one) memory == store for every configured IP, no "
     "table entry or FloatingIP object outside the configuration. Non-trivial = a reload dropped >=1 allocated IP and kept >=1, or a "
@@ -129,7 +134,8 @@ CHECKS["C08"] = {"pkg": "ipamsim", "test": "TestC08", "level": "fault_enumeratio
 CHECKS["C11"] = {"pkg": "ipamsim", "test": "TestC11", "level": "exploration",
     "quick": {"checks": 5000, "shards": 4, "timeout": 900}, "thorough": {"checks": 120000, "shards": 16, "timeout": 2400},
     "rule": "rapid draws 1-40 pods with DNS-1123 namespaces/names (length up to 63, heavy '-' and digits, reserved words like sts/dp/pool/null), "
-            "owner in {none, StatefulSet, ReplicaSet with/without '-', Deployment, TApp, arbitrary kinds, case variants, two owners}, pool "
+            "owner in {none, StatefulSet, ReplicaSet with/without '-', Deployment, TApp, arbitrary CamelCase kinds of custom resources incl. "
+            "plural-looking and double-s endings (Redis, Process, Ingress, StorageClass, generated), case variants, two owners}, pool "
             "name in {none, DNS-1123}, plus page in [-1,100000] and size in [-1,10000]. Oracle: distinct pods => distinct keys; "
             "ParseKey(FormatKey(p)) returns pod/app/namespace/type/pool; prefixes are prefixes; then through the real /v1/ip routes on a "
             "real plugin: walking all pages shows every IP exactly once with consistent first/last/total; every releasable listed entry "
@@ -157,7 +163,8 @@ CHECKS["C13"] = {"pkg": "galaxysim", "test": "TestC13", "level": "exploration",
     "extra_builds": [{"pkg": "cmd/fakecni", "out": "fakecni"}],
     "quick": {"checks": 2000, "shards": 4, "timeout": 900}, "thorough": {"checks": 32000, "shards": 16, "timeout": 2400},
     "rule": "rapid draws a pool (mask /8-/30, gateway anywhere in the subnet, VLAN 0-4094), a statefulset or deployment pod requesting k=0-4 "
-            "ranges, and 1-2 networks. Real Filter+Bind on the simulated cluster -> the applied binding annotation is put on the pod served "
+            "ranges, and 1-2 networks; a quarter of the pods were created from the manifest of a pod bound earlier, i.e. their args annotation "
+            "already carries common.ipinfos with an address IPAM never gave to them. Real Filter+Bind on the simulated cluster -> the applied binding annotation is put on the pod served "
             "to the real galaxy daemon -> ADD -> the fake plugin's recorded CNI_ARGS is decoded with the plugins' own cni/ipam.Allocate -> "
             "(address, prefix length, gateway, VLAN) must equal, in order, what the FloatingIP objects and the pool say, for every network. "
             "Non-trivial = k>=2 or VLAN != 0 or mask != /24.",
@@ -179,7 +186,8 @@ CHECKS["C14"] = {"pkg": "netsim", "test": "TestC14", "level": "exploration",
             "from a universe of 4 so that pods collide, host port 0 with/without the port-mapping annotation, host IP), an unrelated "
             "process holding a port, and 2-12 operations: CNI ADD (the fake plugin or the n-th iptables call may fail; a failed ADD is "
             "followed by kubelet's DEL), CNI DEL (the n-th iptables call may fail; retried), daemon restart (sockets die, a new instance "
-            "runs the real start-up synchronisation on the same API objects and nat table), the GC's clean callback for dead containers. "
+            "runs the real start-up synchronisation on the same API objects and nat table), the GC's clean callback for dead containers, "
+            "a pod becoming terminating (deletion timestamp set, sandbox alive until its DEL). "
             "After every operation: every live pod's recorded host ports are bound by galaxy and pairwise distinct, no other port of the "
             "universe and no random port handed out earlier is bound, the nat table holds exactly the mappings of the live pods (pod IP = "
             "what the plugin reported), foreign chains byte-identical, the saved port file exists iff the container is live with ports, the "
@@ -192,7 +200,7 @@ CHECKS["C15"] = {"pkg": "netsim", "test": "TestC15", "level": "exploration",
     "quick": {"checks": 6000, "shards": 4, "timeout": 900}, "thorough": {"checks": 48000, "shards": 16, "timeout": 2400},
     "rule": "rapid draws a pair of cluster states A,B (2-4 labelled namespaces, 3-10 labelled pods with IPs, some on this node, 0-5 policies "
             "with pod/namespace/combined selectors, ipBlocks with excepts, ports, all policyTypes combinations; B derived from A by pod "
-            "delete/relabel/re-address/add and policy delete/rewrite/add), optionally the A->B difference as a generated permutation of "
+            "delete/relabel/re-address/re-creation under the same name on the other side (local <-> remote)/add and policy delete/rewrite/add), optionally the A->B difference as a generated permutation of "
             "informer events through the real handlers, and prior kernel state (foreign chains/sets, stale GLX sets, stale GLX policy "
             "chains, a stale pod chain still referencing a stale policy chain). Oracle on the strict fakes: no rejected batch, non-GLX "
             "chains/rules/sets unchanged after every call, full sync of B == full sync of B on empty tables (canonical form), second full "
